@@ -35,7 +35,7 @@ class Interp(BaseMixin, ExprMixin, AttrMixin, CallMixin, BuiltinsMixin, StmtMixi
         self.current_lemma = None
         self.uninterpreted = set()
         self.aux_funs: Dict[Any, Any] = _AUX
-        self.spec_defs: Dict[str, Any] = {}
+        self.spec_defs: Dict[str, Any] = _SPEC_DEFS
         self.depth = 0
         self.in_clause = 0
         self.fuv = None
@@ -53,6 +53,8 @@ class Interp(BaseMixin, ExprMixin, AttrMixin, CallMixin, BuiltinsMixin, StmtMixi
     def call_function(self, func, args, kwargs, fr, node=None, owner=None):
         f0 = unwrap_function(func)
         m = _MODELS.get(f0)
+        if m is None:
+            m = FUNCTION_MODELS.get(f'{getattr(f0, "__module__", "")}.{getattr(f0, "__qualname__", "")}')
         if m is not None:
             return m(self, args, kwargs, fr, node)
         return super().call_function(func, args, kwargs, fr, node, owner)
@@ -77,6 +79,15 @@ class Interp(BaseMixin, ExprMixin, AttrMixin, CallMixin, BuiltinsMixin, StmtMixi
 
 
 _AUX: Dict[Any, Any] = {}
+_SPEC_DEFS: Dict[str, Any] = {}
+FUNCTION_MODELS: Dict[str, Any] = {}   # qualified name -> symbolic model of a spec-library helper
+
+
+def function_model(qual):
+    def deco(m):
+        FUNCTION_MODELS[qual] = m
+        return m
+    return deco
 _MODELS: Dict[Any, Any] = {}
 
 
@@ -124,3 +135,4 @@ def install_models():
 
 
 install_models()
+from . import models_specs  # noqa: E402,F401
